@@ -71,6 +71,14 @@ TEMPLATES = {
                  [L(S("forall"), L(S("?i"), S("-"), S("item")), L(S("when"), A("on", "?i", "?l"), A("done", "?i")))]),
     "ring": ([["?a", "agent"], ["?l", "loc"]], [A("at", "?a", "?l"), NOT(A("busy", "?a"))],
              [A("alarm"), L(S("forall"), L(S("?b"), S("-"), S("agent")), L(S("when"), A("at", "?b", "?l"), A("busy", "?b")))]),
+    # an effect that reads what the same action changes (conditions and right-hand sides are read in the state
+    # before the action): tidy makes the location clear, its forall fires only where it was clear already
+    "tidy": ([["?a", "agent"], ["?l", "loc"]], [A("at", "?a", "?l")],
+             [A("clear", "?l"), L(S("increase"), L(S("load"), S("?a")), N(1)),
+              L(S("forall"), L(S("?i"), S("-"), S("item")), L(S("when"), L(S("and"), A("on", "?i", "?l"), A("clear", "?l")), A("done", "?i"))),
+              L(S("when"), L(S(">"), L(S("load"), S("?a")), N(0)), A("busy", "?a"))]),
+    # only numeric effects, one of them an assignment (does not commute with the increases of other actions)
+    "zero": ([["?a", "agent"]], [NOT(A("busy", "?a"))], [L(S("assign"), L(S("total")), N(0)), L(S("increase"), L(S("load"), S("?a")), N(1))]),
     # actions without parameters (no agent of their own): legal members of a joint action
     "tick": ([], [], [L(S("increase"), L(S("total")), N(1))]),
     "hush": ([], [A("alarm")], [NOT(A("alarm"))]),
@@ -99,7 +107,7 @@ VARIANTS = {
 def gen_domain(rng):
     names = ["move", "pick", "drop"] + rng.sample(["mark", "clean", "block", "rest", "inspect", "count", "disarm", "arm", "work", "signal"], rng.choice([3, 4, 5]))
     names += rng.sample(["sweep", "seal", "stash"], rng.choice([0, 1, 2]))
-    names += rng.sample(["sweepall", "ring"], rng.choice([0, 0, 1, 2]))
+    names += rng.sample(["sweepall", "ring", "tidy", "zero"], rng.choice([0, 1, 1, 2]))
     if rng.random() < 0.5:
         names.append(rng.choice(["tick", "hush"]))
     acts = []
